@@ -40,6 +40,7 @@ def _dofde(args):
         print(f"Processing frequency {WN_[j] / 2 / np.pi:8.2f} Hz", end="\r")
     b, a = coeffunc(Q, dT, WN_[j])
     resphist = signal.lfilter(b, a, SIG_)
+    srs._verif("pre", j)
     ASV_[1, j] = abs(resphist).max()
     ASV_[2, j] = np.var(resphist, ddof=1)
 
@@ -56,6 +57,7 @@ def _dofde(args):
     for jj in range(BinAmps_.shape[1]):
         pv = amp >= BinAmps_[j, jj]
         Count_[j, jj] = np.sum(count[pv])
+    srs._verif("post", j)
 
 
 def fdepsd(
